@@ -18,7 +18,7 @@ CHECKS = {
             "DESIGN.md §4 C14"),
     "C20": ("ENUM", "exploration",
             "exhaustive enumeration of key/endpoint/name strings composed of path-significant tokens through every API that turns a string into a path or URL, judged by a directory diff of a sandbox parent",
-            "Every string of <=3 (thorough 4) tokens from {.., ., /, a, a.b, a.tmp, empty, NUL, backslash, :, ~, 300-byte name, /abs, hex hash, ../../..} used as raw DiskCache key (both layouts), as every string field of the ten typed keys, as ProtocolCache key, as RibbitTactClient::query endpoint (only those the real validation accepts) and as CDN endpoint path / archive key against a loopback mock, as Storage::open_installation name; content keys of every length 0..=32 through seven CdnClient calls; offsets/lengths over {0,1,2^64-1}^2; boundary binary keys for path helpers; 11 990 ordered pairs of distinct well-formed typed keys. Oracle: nothing outside the configured root changes (metadata and content hashes of a 13-level-deep sandbox), no get returns the sentinel's content, no panic, distinct well-formed keys never share a file.",
+            "Every string of <=3 (thorough 4) tokens from {.., ., /, a, a.b, a.tmp, empty, NUL, backslash, :, ~, 300-byte name, /abs, hex hash, ../../..} used as raw DiskCache key (both layouts), as every string field of the ten typed keys, as ProtocolCache key, as RibbitTactClient::query endpoint (only those the real validation accepts) and as CDN endpoint path / archive key against a loopback mock, as Storage::open_installation name; content keys of every length 0..=32 through seven CdnClient calls; offsets/lengths over {0,1,2^64-1}^2; boundary binary keys for path helpers; every ordered pair of distinct keys of a universe of well-formed typed keys (numeric fields incl. values with more digits that share their low digits). Oracle: nothing outside the configured root changes (metadata and content hashes of a 13-level-deep sandbox), no get returns the sentinel's content, no panic, distinct well-formed keys never share a file.",
             "Trusted: the sandbox snapshot. Strings of more tokens, CDN host strings, symlinks and Windows path semantics are not covered.",
             "DESIGN.md §4 C20"),
     "C02": ("ENUM (isolated workers)", "exploration",
